@@ -419,6 +419,18 @@ class ReaderAccesses:
         self._visit(e)
 
     def _visit(self, n):
+        if isinstance(n, ast.BoolOp) and isinstance(n.op, ast.And):
+            # ``"k" in X and X["k"]``: later conjuncts are evaluated only if the earlier ones held
+            pushed = 0
+            for v in n.values:
+                self._visit(v)
+                if not (isinstance(v, ast.UnaryOp) and isinstance(v.op, ast.Not)):
+                    g = self._guards(v)
+                    self._optional_ctx.extend(g)
+                    pushed += len(g)
+            if pushed:
+                del self._optional_ctx[len(self._optional_ctx) - pushed:]
+            return
         if isinstance(n, ast.IfExp):
             self._visit(n.test)
             negated = isinstance(n.test, ast.UnaryOp) and isinstance(n.test.op, ast.Not)
@@ -500,9 +512,10 @@ class ReaderAccesses:
             self.accesses.append(Access(path + a.path, a.required and not opt, a.where, a.text))
 
 
-def compare(writer: object, accesses: List[Access], allow_unread: Dict[Tuple[str, ...], str]):
-    """Rule A and Rule B. Returns (problems, checked) where problems are
+def compare(writer: object, accesses: List[Access], allow_unread: Dict[Tuple[str, ...], str], allow_unwritten: Optional[Dict[Tuple[str, ...], str]] = None):
+    """Rules A, B and C. Returns (problems, checked) where problems are
     (kind, path, detail, where) tuples."""
+    allow_unwritten = allow_unwritten or {}
     problems = []
     checked = []
     read_paths = {a.path for a in accesses}
@@ -523,6 +536,10 @@ def compare(writer: object, accesses: List[Access], allow_unread: Dict[Tuple[str
             if k not in shape.keys:
                 if a.required and i == len(a.path) - 1:
                     problems.append(("A-missing", a.path, f"reader requires key {'/'.join(a.path)} ({a.text}) which the writer never writes", a.where))
+                elif i == len(a.path) - 1 and a.path not in allow_unwritten and not any(p[1] == a.path for p in problems):
+                    # Rule C: an optional read of a key no writer path produces: that part of the
+                    # object is never stored, so it cannot come back
+                    problems.append(("C-never-written", a.path, f"reader looks for optional key {'/'.join(a.path)} ({a.text}) but the writer never writes it: that part of the object is not persisted at all", a.where))
                 ok = False
                 shape = None
                 break
